@@ -40,6 +40,17 @@ def registry : List (String × (Text → Res (Text × J))) := [
   ("Field70", narr "70" "narrative" 4 35), ("Field71B", narr "71B" "details" 6 35), ("Field72", narr "72" "information" 6 35),
   ("Field75", narr "75" "information" 6 35), ("Field76", narr "76" "information" 6 35), ("Field79", narr "79" "information" 35 50),
   ("Field86", narr "86" "narrative" 6 65), ("Field77A", narrL "77A" "narrative" 20 35), ("Field77B", narrL "77B" "narrative" 3 35),
+  ("Field52A", fun c => withTag "52A" (OptA.parse c) OptA.ser (OptA.json false true)), ("Field53A", fun c => withTag "53A" (OptA.parse c) OptA.ser (OptA.json true false)),
+  ("Field54A", fun c => withTag "54A" (OptA.parse c) OptA.ser (OptA.json true false)), ("Field55A", fun c => withTag "55A" (OptA.parse c) OptA.ser (OptA.json true false)),
+  ("Field56A", fun c => withTag "56A" (OptA.parse c) OptA.ser (OptA.json false false)), ("Field57A", fun c => withTag "57A" (OptA.parse c) OptA.ser (OptA.json false true)),
+  ("Field58A", fun c => withTag "58A" (OptA.parse c) OptA.ser (OptA.json false false)),
+  ("Field52C", fun c => withTag "52C" (OptC.parse c) OptC.ser (fun v => .obj [("party_identifier", .str v)])),
+  ("Field56C", fun c => withTag "56C" (OptC.parse c) OptC.ser (fun v => .obj [("party_identifier", .str v)])),
+  ("Field57C", fun c => withTag "57C" (OptC.parse c) OptC.ser (fun v => .obj [("party_identifier", .str v)])),
+  ("Field52D", fun c => withTag "52D" (OptD.parse c) OptD.ser (OptD.json false false)), 
+  ("Field54D", fun c => withTag "54D" (OptD.parse c) OptD.ser (OptD.json true false)), ("Field55D", fun c => withTag "55D" (OptD.parse c) OptD.ser (OptD.json true false)),
+  ("Field56D", fun c => withTag "56D" (OptD.parse c) OptD.ser (OptD.json false false)), ("Field57D", fun c => withTag "57D" (OptD.parse c) OptD.ser (OptD.json false false)),
+  ("Field58D", fun c => withTag "58D" (OptD.parse c) OptD.ser (OptD.json false false)),
   ("Field77T", fun c => withTag "77T" (F77T.parse c) id (fun v => .obj [("envelope_content", .str v)]))
 ]
 
